@@ -341,6 +341,7 @@ pub fn run(ctx: &Ctx) -> Report {
     run_part(ctx, &mut rep, &frame);
     run_part(ctx, &mut rep, &ls);
     run_part(ctx, &mut rep, &super::sweep::mode_part(&SYS_MODES, ctx.tier));
+    super::sweep::mode_number_sweep(ctx, &mut rep, &SYS_MODES);
     rep.rule = "BFS over histories mixing primary-screen edits, entry by 47/1047/1049, everything executable on the alternate screen (prints, scrolls, IL/DL, ED/EL, DECALN, ICH/DCH, margins, save/restore, DECSTR, RI), exit by 47/1047/1049 and four resizes; frame oracle: blank alternate screen in the current pen on entry, text() constant throughout, primary lines() identical after leaving (size unchanged) or re-wrapped-not-altered by the C10 relation (size changed), 1049 pair restores the cursor; plus a lock-step run of the buffer switches against the reference terminal; non-trivial = calls executed while the alternate screen is showing".into();
     rep.assumptions = vec![
         "which screen is showing is read through the verif hook".into(),
@@ -354,6 +355,7 @@ pub fn replay(ctx: &Ctx, v: &Value) -> bool {
     let (frame, ls) = parts!(tier);
     match v["part"].as_str().unwrap_or("") {
         "excursions-frame-oracle" => replay_part(ctx, &frame, v),
+        "every-mode-number" => super::sweep::mode_number_replay(ctx, &SYS_MODES),
         "mode-list-shapes" => replay_part(ctx, &super::sweep::mode_part(&SYS_MODES, tier), v),
         _ => replay_part(ctx, &ls, v),
     }
